@@ -346,6 +346,7 @@ EndBlock(s) ==
 Commit(s) ==
   LET s1 == [s EXCEPT !.tree = [delegs |-> s.delegs, frozen |-> s.frozen, props |-> s.props, fprops |-> s.fprops],
                       !.hist = Put(@, s.h, s.delegs),
+                      !.prevGov = s.gov,     \* the parameters that were in force during the block just committed
                       !.gov = IF s.govPending.some THEN s.govPending.v ELSE @,
                       !.govPending = [some |-> FALSE],
                       !.lastH = s.h, !.inblock = FALSE, !.feeSum = <<>>, !.txCount = 0, !.proposer = "none"]
@@ -355,11 +356,12 @@ Commit(s) ==
 CheckTx(s, tx) == [s |-> s, resp |-> [ok |-> TRUE]]
 
 \* a restarted process: the overlay caches are gone (they equal the committed trees at a block boundary),
-\* the volatile validator set is rebuilt from the delegatee ledger of the previous version
+\* the volatile validator set is rebuilt from the delegatee ledger of the previous version with the parameters
+\* that were in force during the last block (what the last EndBlock used)
 Restart(s) ==
   LET prevDelegs == IF s.lastH - 1 \in DOMAIN s.hist /\ s.lastH > 1 THEN s.hist[s.lastH - 1] ELSE [x \in {} |-> 0]
-      cands == [d \in {x \in DOMAIN prevDelegs : prevDelegs[x].self >= MinPower(s.gov)} |-> prevDelegs[d]]
-      new == AscSeq(TopN(cands, DOMAIN cands, s.gov.maxValidatorCnt))
+      cands == [d \in {x \in DOMAIN prevDelegs : prevDelegs[x].self >= MinPower(s.prevGov)} |-> prevDelegs[d]]
+      new == AscSeq(TopN(cands, DOMAIN cands, s.prevGov.maxValidatorCnt))
   IN [s |-> [s EXCEPT !.vol.lastVals = [i \in 1..Len(new) |-> [v |-> new[i], pow |-> cands[new[i]].total]],
                       !.vol.allDelegs = cands],
       resp |-> [h |-> s.lastH, hash |-> "h"]]
